@@ -474,6 +474,7 @@ func runC13(c *Ctx) {
 	c13Middleware(c)
 	c13Serialisations(c)
 	c13History(c)
+	c13Sizes(c)
 	keys := allKeys()
 	methods := append(append([]string{}, sigMethods...), bogusMethods...)
 	methods = append(methods, "")
